@@ -384,6 +384,82 @@ func script(seed int64, idx int) {
 			}
 		}
 	}
+	// ---------------- epilogue: one transient failure of the idle polling loop makes the supervisor restart the
+	// watcher. Nothing is pending at that point, so the restart must neither deliver an already forwarded message
+	// again by polling nor miss what is emitted afterwards.
+	if progressed && maxRun <= 50 && versions <= 1 && rng.Intn(2) == 0 {
+		before := map[int]int{}
+		evs := w.H.AllEvents()
+		for _, a := range w.H.ArrivalsCopy() {
+			if e := alphsim.Match(a.Msg, evs); e != nil {
+				before[e.ID]++
+			}
+		}
+		w.Sim.WithLock(func() {
+			if w.Sim.Faults["count"] == nil {
+				w.Sim.Faults["count"] = map[int]string{}
+			}
+			w.Sim.Faults["count"][w.Sim.CountKind2("count")+1] = "500"
+		})
+		w.Tr("epilogue: 500 on the next current-count request (watcher restart with nothing pending)")
+		restarted := false
+		for i := 0; i < 240 && !restarted; i++ {
+			time.Sleep(250 * time.Millisecond)
+			n := 0
+			for _, e := range w.Sim.LogCopy() {
+				if e.Kind == "version" {
+					n++
+				}
+			}
+			restarted = n > versions
+		}
+		if !restarted || !w.H.WaitRounds(3, 40*time.Second) {
+			vlib.CInconclusive("epilogue: the watcher was not seen restarting within 60s after the injected failure: " + desc)
+		} else {
+			var fresh *alphsim.Ev
+			w.Sim.Mutate("emit-after-restart", func(s *alphsim.Sim) {
+				b := w.NewBlock(s, false)
+				n := len(expected)
+				emitOne(s, b, "good-transfer")
+				fresh = expected[n]
+				s.SetHeight(s.Height + 10)
+			})
+			w.Tr("epilogue: one more transfer after the restart, height +10")
+			w.H.WaitRounds(6, 40*time.Second)
+			after := map[int]int{}
+			for attempt := 0; attempt < 4; attempt++ {
+				after = map[int]int{}
+				evs = w.H.AllEvents()
+				for _, a := range w.H.ArrivalsCopy() {
+					if e := alphsim.Match(a.Msg, evs); e != nil {
+						after[e.ID]++
+					}
+				}
+				if after[fresh.ID] > 0 {
+					break
+				}
+				w.H.WaitRounds(6, 20*time.Second)
+			}
+			vlib.CCount("restart_epilogues", 1)
+			again := 0
+			for id, n := range after {
+				if id != fresh.ID && n > before[id] {
+					again++
+				}
+			}
+			if again > 0 {
+				vlib.CFinding("already-forwarded-message-forwarded-again-by-polling-after-watcher-restart", wit(map[string]interface{}{"messages_forwarded_again": again, "forwarded_before_restart": len(before)}))
+			}
+			switch after[fresh.ID] {
+			case 1:
+				vlib.CCount("delivered_exactly_once_after_restart", 1)
+			case 0:
+				vlib.CFinding("token-bridge-message-never-observed:emitted-after-watcher-restart", wit(map[string]interface{}{"poller_enabled_now": w.H.W.VerifBlockPollerEnabled()}))
+			default:
+				vlib.CFinding("token-bridge-message-observed-more-than-once:emitted-after-watcher-restart", wit(map[string]interface{}{"times": after[fresh.ID]}))
+			}
+		}
+	}
 	for _, f := range w.H.JudgeSafety(desc) { // nothing else may come out either
 		vlib.CFinding("unexpected:"+f.Class, f.Witness)
 	}
@@ -425,6 +501,6 @@ func main() {
 		r.Inconclusive("no token-bridge message was ever expected")
 	}
 	r.Assume("liveness restated as bounded progress: after the last mutation the simulator keeps answering and within 6 further completed poll rounds every well-formed token-bridge event of a main-chain block whose confirmation conditions hold must have been forwarded exactly once",
-		"all block timestamps are ~100 days old so that no wall-clock floor delays a delivery", "no API faults are injected in these scripts (only token-metadata calls of attacker-named contracts misbehave)")
+		"all block timestamps are ~100 days old so that no wall-clock floor delays a delivery", "no API faults are injected while messages are pending (only token-metadata calls of attacker-named contracts misbehave); half of the scripts end with one failed current-count request when nothing is pending, i.e. a supervisor restart of the watcher")
 	r.Finish("evaluations", "scripts_distinct", "page limits {1,2,3,100}; batches of 1-5 events per block mixing well-formed token-bridge transfers/attestations (incl. target chain 65535, consistency 255, sequence near 2^64) with foreign-sender events, attestation-shaped events naming contracts whose metadata calls fail in seven ways, and twelve kinds of malformed events; 0/1/page/page+1 further events appended between the count answer and the first page answer and before the second page; distinct non-trivial = distinct script traces", 20)
 }
